@@ -217,6 +217,9 @@ def r5_stale_shape(ctx):
 
 from .c20 import r6_memoised_results as _memoised_results      # a memoised encoder would hand the same writable array to every caller
 
+from ..through_time import make_rule as _mk_tt
+_through_time = _mk_tt("C07")
+
 RULES = [
     ("C07-R1", r1_encoding_preserved),
     ("C07-R2", r2_operands_encoded),
@@ -224,4 +227,5 @@ RULES = [
     ("C07-R4", r4_text_helpers),
     ("C07-R5", r5_stale_shape),
     ("C07-R6", _memoised_results),
+    ("C07-T1", _through_time),
 ]
